@@ -100,7 +100,7 @@ func (fx *FnCtx) initGhost(st *State) {
 	fx.stmtSites = map[ssa.Instruction]string{}
 	wanted := map[string]bool{}
 	for _, ga := range fx.fc.GhostAt {
-		if strings.HasPrefix(ga.Site, "stmt ") {
+		if strings.HasPrefix(ga.Site, "stmt ") || strings.HasPrefix(ga.Site, "before stmt ") {
 			wanted[ga.Site] = false
 		}
 	}
@@ -159,6 +159,28 @@ func (fx *FnCtx) initGhost(st *State) {
 			fx.stmtSites[ins] = site
 			wanted[site] = true
 		}
+		// "before stmt <text>": just before the first call the line compiles to
+		fx.beforeSites = map[ssa.Instruction]string{}
+		for _, b := range fx.fn.Blocks {
+			for _, ins := range b.Instrs {
+				c, ok := ins.(*ssa.Call)
+				if !ok {
+					continue
+				}
+				if _, isB := c.Call.Value.(*ssa.Builtin); isB {
+					continue
+				}
+				pos := fx.V.fset.Position(ins.Pos())
+				if !pos.IsValid() {
+					continue
+				}
+				site := "before stmt \"" + strings.Join(strings.Fields(sourceLine(pos.Filename, pos.Line)), " ") + "\""
+				if done, ok := wanted[site]; ok && !done {
+					fx.beforeSites[ins] = site
+					wanted[site] = true
+				}
+			}
+		}
 		for site, found := range wanted {
 			if !found {
 				fx.fail("ghost site %s does not exist (no store, append, call or return on a line with that text)", site)
@@ -189,7 +211,7 @@ func (fx *FnCtx) initGhost(st *State) {
 			if n >= len(stores) {
 				fx.fail("ghost site %s does not exist (function has %d stores through pointers)", ga.Site, len(stores))
 			}
-		case strings.HasPrefix(ga.Site, "stmt "):
+		case strings.HasPrefix(ga.Site, "stmt "), strings.HasPrefix(ga.Site, "before stmt "):
 		case strings.HasPrefix(ga.Site, "loop "):
 		default:
 			fx.fail("unknown ghost site %q", ga.Site)
